@@ -12,7 +12,7 @@ BASELINE_OFF = ("cd /repo && export GOFLAGS=-mod=mod GOPROXY=off GOSUMDB=off GOT
 CHECKS = {
     "C01": ("exploration",
             "bounded-exhaustive program family x deviation-bounded schedule exploration on the real runtime, reference interpreter as oracle",
-            "All programs of two template families (dataflow: 12 dimensions with at most 3 (quick) / 4 (thorough) leaving their base value; nested disabling: 0-3(4) wrapper levels x 6 controls x all valuations) are executed on the real martian runtime (InvokePipeline, RefreshState/StepNodes loop, real metadata files) with an in-package job manager and a model job; every job's _args (and chunk_defs/chunk_outs of joins) and the top-level _outs are compared with an independent denotational interpreter of the MRO IR. For each program the default schedule and all 1-deviation schedules (each job held until quiescence, lagged, start-only; each StepNodes frontier-order occurrence permuted; thorough: pairs of held jobs, every map-iteration site of package core) are explored.",
+            "All programs of three template families (dataflow: 12 dimensions with at most 3 (quick) / 4 (thorough) leaving their base value; nested disabling: 0-3(4) wrapper levels x 6 controls x all valuations; two-level nests of mapped calls over arrays / typed maps, literal or produced at run time, non-split and split leaves) are executed on the real martian runtime (InvokePipeline, RefreshState/StepNodes loop, real metadata files) with an in-package job manager and a model job; every job's _args (and chunk_defs/chunk_outs of joins) and the top-level _outs are compared with an independent denotational interpreter of the MRO IR. For each program the default schedule and all 1-deviation schedules (each job held until quiescence, lagged, start-only; each StepNodes frontier-order occurrence permuted; thorough: pairs of held jobs, every map-iteration site of package core) are explored.",
             "jobs follow the mrjob/adapter metadata protocol (model job); stage functions come from the fixed /verif library; nesting depth, sizes and the value alphabet are bounded by the families",
             "DESIGN.md 4/C01"),
     "C02": ("exploration",
